@@ -1,6 +1,6 @@
 (* Props/C06.v — C06: each packet reaches only its own PID's handler; flagged packets reach none. *)
 From TS Require Import Base.Res Model.Timestamp Model.Packet Model.PesFilter Model.Crc Model.Psi Model.Demux
-  Spec.Dispatch Proofs.DispatchProofs Proofs.ProjectionProofs.
+  Spec.Dispatch Proofs.DispatchProofs Proofs.ProjectionProofs Proofs.SerialProofs.
 Open Scope N_scope.
 
 (* the loop of Demultiplex::push (one look-up per run of equal PIDs, re-look-up after a change-set) IS the
@@ -71,6 +71,14 @@ Theorem C06_interleaving : forall policy scripts fuzzing deep pkts1 pkts2 fs cx 
   filters_get (fst (fst r1)) p = filters_get (fst (fst r2)) p.
 Proof. exact c06_interleaving. Qed.
 Print Assumptions C06_interleaving.
+
+(* the two standing hypotheses of C06_projection are met by EVERY state the demultiplexer can reach: after Demultiplex::new
+   and any sequence of push calls (any bytes, any policy, any scripts, both cfgs, both observers) the handler table is
+   well formed, no two of its handlers share a serial number, and the change queue is empty *)
+Theorem C06_reachable_tables : forall policy scripts fuzzing deep bufs fs cx ev,
+  run_demux policy scripts fuzzing deep bufs = Ok (fs, cx, ev) -> wf fs /\ serial_inj fs /\ cx_changes cx = nil.
+Proof. exact reachable_serial_inj. Qed.
+Print Assumptions C06_reachable_tables.
 
 Example C06_projection_nonvacuous :
   let fs := {| f_len := 258; f_slots := ((256, HRec 5) :: (257, HRec 6) :: nil) |} in
